@@ -5,6 +5,7 @@ import (
 	"fmt"
 
 	"github.com/risor-io/risor/errz"
+	"github.com/risor-io/risor/internal/verifhook"
 	"github.com/risor-io/risor/op"
 )
 
@@ -68,6 +69,8 @@ func (t *Thread) GetAttr(name string) (Object, bool) {
 }
 
 func (t *Thread) Wait(ctx context.Context) Object {
+	verifhook.Yield("thread.wait")
+	defer verifhook.Yield("thread.wait.done")
 	select {
 	case <-ctx.Done():
 		return Errorf("wait error: %s", ctx.Err())
@@ -87,7 +90,10 @@ func NewThread(ctx context.Context, callable Callable, args []Object) *Thread {
 		done:     make(chan bool),
 	}
 
+	tok := verifhook.Spawn("thread")
 	go func() {
+		verifhook.Start(tok)
+		defer verifhook.Exit(tok)
 		defer func() {
 			if r := recover(); r != nil {
 				t.result = NewError(fmt.Errorf("panic: %v", r))
